@@ -8,7 +8,8 @@ import (
 
 func TestReplay(t *testing.T) {
 	verif.ReplayMain(map[string]func(){
-		"HarnessPanicHTTP": HarnessPanicHTTP,
-		"HarnessPanicWS":   HarnessPanicWS,
+		"HarnessPanicBatch": HarnessPanicBatch,
+		"HarnessPanicHTTP":  HarnessPanicHTTP,
+		"HarnessPanicWS":    HarnessPanicWS,
 	})
 }
